@@ -32,7 +32,7 @@ def configs(tier):
                 for nb in nbs:
                     for cond in ("d", "n"):
                         for fshape in ("scalar", "vec1"):
-                            for n_out, dim in ((1, None), (2, 1)) + (((2, None),) if cond == "d" else ()):
+                            for n_out, dim in ((1, None), (2, 1), (2, 0)) + (((2, None),) if cond == "d" else ()):
                                 if tier == "quick" and d == 2 and nb == 1 and (n_out, dim) != (1, None): continue
                                 out.append(dict(kind=kind, nt=nt, d=d, nb=nb, spec="global", cond=cond, fshape=fshape, n_out=n_out, dim=dim))
             # per-facet specifications
